@@ -23,23 +23,29 @@ ClassBit(L, c, t) == \E i \in 1..Len(L.live) : L.live[i].cls = c /\ L.live[i].id
 
 Wrong(L, x, bit, l) == AddViol(L, "C13", "iin-" \o bit, l, "IIN bit does not match the ledger")
 
-CheckIin(L, x, l) ==
+\* On the line of the broadcast itself an unsolicited response may be written before the
+\* outstation looks at the broadcast (a fragment that ends a solicited confirm wait is retained and
+\* handled after check_unsolicited): the bit is accepted either way on that line.
+CheckIin(L, x, e, l) ==
     LET t  == x.t
         L1 == IF x.iin.c1 # ClassBit(L, 1, t) THEN Wrong(L, x, "c1", l) ELSE L
         L2 == IF x.iin.c2 # ClassBit(L, 2, t) THEN Wrong(L1, x, "c2", l) ELSE L1
         L3 == IF x.iin.c3 # ClassBit(L, 3, t) THEN Wrong(L2, x, "c3", l) ELSE L2
         L4 == IF x.iin.ovf # L.ovf THEN Wrong(L3, x, "ovf", l) ELSE L3
-        L5 == IF x.iin.rst # L.rst THEN Wrong(L4, x, "rst", l) ELSE L4
+        L5 == IF x.iin.rst # L.rst /\ ~(e.k = "rx" /\ Broadcast(e) /\ ClearsRestart(e))
+                THEN Wrong(L4, x, "rst", l) ELSE L4
         L6 == IF x.iin.time # L.app.time THEN Wrong(L5, x, "time", l) ELSE L5
         L7 == IF x.iin.local # L.app.local THEN Wrong(L6, x, "local", l) ELSE L6
         L8 == IF x.iin.trouble # L.app.trouble THEN Wrong(L7, x, "trouble", l) ELSE L7
         L9 == IF x.iin.cfg # L.app.cfg THEN Wrong(L8, x, "cfg", l) ELSE L8
-        bcBad == IF L.bc.maybe THEN FALSE ELSE x.iin.bc # L.bc.set
+        sameLine == e.k = "rx" /\ Broadcast(e)
+        bcBad == IF L.bc.maybe \/ sameLine THEN FALSE ELSE x.iin.bc # L.bc.set
         L10 == IF bcBad THEN Wrong(L9, x, "bc", l) ELSE L9
     IN \* reporting consumes an optional / not-required broadcast indication
-       IF L10.bc.set /\ ~L10.bc.man THEN [L10 EXCEPT !.bc.set = FALSE, !.bc.maybe = FALSE]
+       IF sameLine /\ ~x.iin.bc THEN L10
+       ELSE IF L10.bc.set /\ ~L10.bc.man THEN [L10 EXCEPT !.bc.set = FALSE, !.bc.maybe = FALSE]
        ELSE IF L10.bc.set THEN [L10 EXCEPT !.bc.reported = TRUE]
-       ELSE L10
+       ELSE [L10 EXCEPT !.bc.maybe = FALSE]
 
 \* The reply to DISABLE_UNSOLICITED is sent at the moment the unsolicited series is cancelled:
 \* whether its events still count as "awaiting confirmation" in that one reply is not determined
@@ -53,8 +59,8 @@ TxStep(acc, x, e, l) ==
         alt    == [after EXCEPT !.uns.active = acc.uns.active]
     IN IF exempt \/ x.fc \notin {129, 130} THEN after
        ELSE IF EndsUnsolWait(acc, e, x) /\ ~ClassBitsOk(after, x) /\ ClassBitsOk(alt, x)
-         THEN [CheckIin(alt, x, l) EXCEPT !.uns.active = FALSE]
-       ELSE CheckIin(after, x, l)
+         THEN [CheckIin(alt, x, e, l) EXCEPT !.uns.active = FALSE]
+       ELSE CheckIin(after, x, e, l)
 
 MonStep(m, e, l) ==
     IF e.k = "reset" THEN LInit(e.cfg, e.id, m.viol)
